@@ -23,9 +23,11 @@ func (r Range) Index(i int) any { return r.b + i }
 
 // AsArray converts the range into an array.
 func (r Range) AsArray() []any {
-	a := make([]any, 0, r.Len())
-	for i := r.b; i <= r.e; i++ {
-		a = append(a, i)
+	n := r.Len()
+	a := make([]any, 0, n)
+	// count the elements: "i <= r.e" never becomes false when r.e is the largest int
+	for i := 0; i < n; i++ {
+		a = append(a, r.b+i)
 	}
 	return a
 }
